@@ -448,16 +448,6 @@ impl<K, V, const ORD: u8> SlotMap<K, V, ORD> {
             None => unreachable!(),
         }
     }
-    pub fn iter(&self) -> MapIter<'_, K, V, ORD> {
-        let rot = if ORD == 2 { nondet_below(self.len) } else { 0 };
-        MapIter { m: self, i: 0, rot }
-    }
-    pub fn keys(&self) -> impl Iterator<Item = &K> {
-        self.iter().map(|(k, _)| k)
-    }
-    pub fn values(&self) -> impl Iterator<Item = &V> {
-        self.iter().map(|(_, v)| v)
-    }
     pub fn iter_mut(&mut self) -> impl Iterator<Item = (&K, &mut V)> {
         // positional order (for HashMap this is one of the arbitrary orders)
         let len = self.len;
@@ -469,6 +459,16 @@ impl<K, V, const ORD: u8> SlotMap<K, V, ORD> {
 }
 
 impl<K: Ord, V, const ORD: u8> SlotMap<K, V, ORD> {
+    pub fn iter(&self) -> MapIter<'_, K, V, ORD> {
+        let rot = if ORD == 2 { nondet_below(self.len) } else { 0 };
+        MapIter { m: self, i: 0, rot, last: None }
+    }
+    pub fn keys(&self) -> impl Iterator<Item = &K> {
+        self.iter().map(|(k, _)| k)
+    }
+    pub fn values(&self) -> impl Iterator<Item = &V> {
+        self.iter().map(|(_, v)| v)
+    }
     fn find<Q: ?Sized + Ord>(&self, k: &Q) -> Option<usize>
     where
         K: Borrow<Q>,
@@ -512,30 +512,13 @@ impl<K: Ord, V, const ORD: u8> SlotMap<K, V, ORD> {
     {
         self.find(k).is_some()
     }
+    /// storage is UNORDERED for every flavour (appending, swap-removing: no element moves);
+    /// the ordered flavours sort at iteration time instead
     fn insert_at_order(&mut self, k: K, v: V) -> usize {
         if self.len >= CAP {
             capacity_exceeded();
         }
-        let mut pos = self.len;
-        if ORD == 0 {
-            // keep ascending key order
-            let mut i = 0;
-            while i < CAP {
-            if i >= self.len {
-                break;
-            }
-                if self.slot(i).0 > &k {
-                    pos = i;
-                    break;
-                }
-                i += 1;
-            }
-            let mut j = self.len;
-            while j > pos {
-                self.items[j] = self.items[j - 1].take();
-                j -= 1;
-            }
-        }
+        let pos = self.len;
         self.items[pos] = Some((k, v));
         self.len += 1;
         pos
@@ -557,11 +540,20 @@ impl<K: Ord, V, const ORD: u8> SlotMap<K, V, ORD> {
             Some(kv) => kv,
             None => unreachable!(),
         };
-        // shift_remove keeps relative order (BTreeMap / IndexMap::shift_remove / HashMap: any)
-        let mut j = i;
-        while j + 1 < self.len {
-            self.items[j] = self.items[j + 1].take();
-            j += 1;
+        if ORD == 1 {
+            // IndexMap::shift_remove keeps insertion order
+            let mut j = i;
+            while j + 1 < CAP {
+                if j + 1 < self.len {
+                    self.items[j] = self.items[j + 1].take();
+                }
+                j += 1;
+            }
+        } else {
+            let last = self.len - 1;
+            if i != last {
+                self.items[i] = self.items[last].take();
+            }
         }
         self.len -= 1;
         out
@@ -638,18 +630,26 @@ impl<K: Ord, V, const ORD: u8> SlotMap<K, V, ORD> {
         }
     }
     pub fn first_key_value(&self) -> Option<(&K, &V)> {
-        if self.len == 0 {
-            None
-        } else {
-            Some(self.slot(0))
+        let mut best: Option<usize> = None;
+        let mut j = 0;
+        while j < CAP {
+            if j < self.len && best.map(|b| self.slot(j).0 < self.slot(b).0).unwrap_or(true) {
+                best = Some(j);
+            }
+            j += 1;
         }
+        best.map(|b| self.slot(b))
     }
     pub fn last_key_value(&self) -> Option<(&K, &V)> {
-        if self.len == 0 {
-            None
-        } else {
-            Some(self.slot(self.len - 1))
+        let mut best: Option<usize> = None;
+        let mut j = 0;
+        while j < CAP {
+            if j < self.len && best.map(|b| self.slot(j).0 > self.slot(b).0).unwrap_or(true) {
+                best = Some(j);
+            }
+            j += 1;
         }
+        best.map(|b| self.slot(b))
     }
     /// IndexMap::get_index
     pub fn get_index(&self, i: usize) -> Option<(&K, &V)> {
@@ -670,23 +670,54 @@ pub struct MapIter<'a, K, V, const ORD: u8> {
     m: &'a SlotMap<K, V, ORD>,
     i: usize,
     rot: usize,
+    /// ORD == 0: slot yielded last (keys are distinct, so "next larger key" is well defined)
+    last: Option<usize>,
 }
-impl<'a, K, V, const ORD: u8> Iterator for MapIter<'a, K, V, ORD> {
+impl<'a, K: Ord, V, const ORD: u8> Iterator for MapIter<'a, K, V, ORD> {
     type Item = (&'a K, &'a V);
     fn next(&mut self) -> Option<Self::Item> {
-        if self.i < self.m.len {
-            let mut idx = self.i + self.rot;
+        if self.i >= self.m.len {
+            return None;
+        }
+        self.i += 1;
+        if ORD == 0 {
+            // ascending key order by selection: smallest key greater than the last one yielded
+            let mut best: Option<usize> = None;
+            let mut j = 0;
+            while j < CAP {
+                if j < self.m.len {
+                    let k = self.m.slot(j).0;
+                    let after_last = match self.last {
+                        None => true,
+                        Some(l) => k > self.m.slot(l).0,
+                    };
+                    let better = match best {
+                        None => true,
+                        Some(b) => k < self.m.slot(b).0,
+                    };
+                    if after_last && better {
+                        best = Some(j);
+                    }
+                }
+                j += 1;
+            }
+            match best {
+                Some(b) => {
+                    self.last = Some(b);
+                    Some(self.m.slot(b))
+                }
+                None => None,
+            }
+        } else {
+            let mut idx = self.i - 1 + self.rot;
             if idx >= self.m.len {
                 idx -= self.m.len;
             }
-            self.i += 1;
             Some(self.m.slot(idx))
-        } else {
-            None
         }
     }
 }
-impl<'a, K, V, const ORD: u8> IntoIterator for &'a SlotMap<K, V, ORD> {
+impl<'a, K: Ord, V, const ORD: u8> IntoIterator for &'a SlotMap<K, V, ORD> {
     type Item = (&'a K, &'a V);
     type IntoIter = MapIter<'a, K, V, ORD>;
     fn into_iter(self) -> Self::IntoIter {
@@ -698,22 +729,46 @@ pub struct MapIntoIter<K, V, const ORD: u8> {
     i: usize,
     rot: usize,
 }
-impl<K, V, const ORD: u8> Iterator for MapIntoIter<K, V, ORD> {
+impl<K: Ord, V, const ORD: u8> Iterator for MapIntoIter<K, V, ORD> {
     type Item = (K, V);
     fn next(&mut self) -> Option<(K, V)> {
-        if self.i < self.m.len {
-            let mut idx = self.i + self.rot;
+        if self.i >= self.m.len {
+            return None;
+        }
+        self.i += 1;
+        if ORD == 0 {
+            // ascending: take the smallest key still present
+            let mut best: Option<usize> = None;
+            let mut j = 0;
+            while j < CAP {
+                if let Some((k, _)) = &self.m.items[j] {
+                    let better = match best {
+                        None => true,
+                        Some(b) => match &self.m.items[b] {
+                            Some((kb, _)) => k < kb,
+                            None => true,
+                        },
+                    };
+                    if better {
+                        best = Some(j);
+                    }
+                }
+                j += 1;
+            }
+            match best {
+                Some(b) => self.m.items[b].take(),
+                None => None,
+            }
+        } else {
+            let mut idx = self.i - 1 + self.rot;
             if idx >= self.m.len {
                 idx -= self.m.len;
             }
-            self.i += 1;
             self.m.items[idx].take()
-        } else {
-            None
         }
     }
 }
-impl<K, V, const ORD: u8> IntoIterator for SlotMap<K, V, ORD> {
+impl<K: Ord, V, const ORD: u8> IntoIterator for SlotMap<K, V, ORD> {
     type Item = (K, V);
     type IntoIter = MapIntoIter<K, V, ORD>;
     fn into_iter(self) -> Self::IntoIter {
@@ -878,8 +933,9 @@ impl<T, const ORD: u8> SlotSet<T, ORD> {
     pub fn clear(&mut self) {
         self.m.clear()
     }
-    pub fn iter(&self) -> impl Iterator<Item = &T> {
-        self.m.iter().map(|(k, _)| k)
+    pub fn iter(&self) -> SetIter<'_, T, ORD> {
+        let rot = if ORD == 2 { nondet_below(self.m.len) } else { 0 };
+        SetIter { m: &self.m, i: 0, rot }
     }
 }
 impl<T: PartialEq, const ORD: u8> SlotSet<T, ORD> {
@@ -948,15 +1004,46 @@ impl<T: PartialEq, const ORD: u8> SlotSet<T, ORD> {
         *self = out;
     }
 }
+pub struct SetIter<'a, T, const ORD: u8> {
+    m: &'a SlotMap<T, (), ORD>,
+    i: usize,
+    rot: usize,
+}
+impl<'a, T, const ORD: u8> Iterator for SetIter<'a, T, ORD> {
+    type Item = &'a T;
+    fn next(&mut self) -> Option<&'a T> {
+        if self.i < self.m.len {
+            let mut idx = self.i + self.rot;
+            if idx >= self.m.len {
+                idx -= self.m.len;
+            }
+            self.i += 1;
+            Some(self.m.slot(idx).0)
+        } else {
+            None
+        }
+    }
+}
 pub struct SetIntoIter<T, const ORD: u8> {
-    inner: MapIntoIter<T, (), ORD>,
+    m: SlotMap<T, (), ORD>,
+    i: usize,
+    rot: usize,
 }
 impl<T, const ORD: u8> Iterator for SetIntoIter<T, ORD> {
     type Item = T;
     fn next(&mut self) -> Option<T> {
-        match self.inner.next() {
-            Some((k, _)) => Some(k),
-            None => None,
+        if self.i < self.m.len {
+            let mut idx = self.i + self.rot;
+            if idx >= self.m.len {
+                idx -= self.m.len;
+            }
+            self.i += 1;
+            match self.m.items[idx].take() {
+                Some((k, _)) => Some(k),
+                None => None,
+            }
+        } else {
+            None
         }
     }
 }
@@ -964,7 +1051,8 @@ impl<T, const ORD: u8> IntoIterator for SlotSet<T, ORD> {
     type Item = T;
     type IntoIter = SetIntoIter<T, ORD>;
     fn into_iter(self) -> Self::IntoIter {
-        SetIntoIter { inner: self.m.into_iter() }
+        let rot = if ORD == 2 { nondet_below(self.m.len) } else { 0 };
+        SetIntoIter { m: self.m, i: 0, rot }
     }
 }
 impl<T: PartialEq, const ORD: u8> FromIterator<T> for SlotSet<T, ORD> {
